@@ -342,6 +342,11 @@ func (u *upstream) handleRedirection(req *simpleRequest, resp *RespValue) {
 		u.MakeRequestToHost(hostAddr, askingReq)
 		vhook.At("redis.upstream.ask.between")
 		u.MakeRequestToHost(hostAddr, req)
+	default:
+		// The caller matches the prefix with unicode case folding, so it
+		// could be neither of them (e.g. "A\u017fK"), pass the error through.
+		req.SetResponse(resp)
+		return
 	}
 	u.triggerSlotsRefresh()
 }
